@@ -12,6 +12,7 @@ use crate::config::OutputStreamControl;
 use crate::diff::DiffLine;
 use crate::formatln;
 use crate::newline::BytesNewline;
+use crate::newline::SplitLinesByNewline;
 use crate::newline::StringNewline;
 use crate::outcome::Outcome;
 use crate::output::ExitStatus;
@@ -21,7 +22,45 @@ pub(super) trait OutcomeTestGenerator {
     fn generate_testcase(&self) -> Result<String>;
 }
 
+/// An escaped expression that ends in ` (no-eol)` is read without that ending
+/// (Cram compatibility): output that really ends so gets its last character
+/// written as an escape sequence
+fn guard_no_eol_suffix(written: String) -> String {
+    match written.strip_suffix(" (no-eol) (escaped)") {
+        Some(head) => format!("{head} (no-eol\\x29 (escaped)"),
+        None => written,
+    }
+}
+
 impl Outcome {
+    /// The expectation line for a line of output. A line that would be read
+    /// back as a part of the shell expression -- one that starts with `> `
+    /// directly after the expression, or with `$ ` anywhere (a command in a
+    /// Cram document, which the generated lines may end up in through a
+    /// conversion) -- is written with its first character as an escape sequence
+    fn generate_expectation_line(&self, line: &[u8], first: bool) -> String {
+        let written = format!(
+            "{}{}",
+            self.escaping.escaped_expectation(line.trim_newlines()),
+            self.escaping.expectation_suffix(line)
+        );
+        let misread = (first && written.starts_with("> ")) || written.starts_with("$ ");
+        if !misread {
+            return guard_no_eol_suffix(written);
+        }
+        // everything in escaped notation: render with an unprintable first
+        // character, then name the real one
+        let content = line.trim_newlines();
+        let mut marked = content.to_vec();
+        marked[0] = 1;
+        let rendered = self.escaping.escaped_printable(&marked);
+        guard_no_eol_suffix(format!(
+            "\\x{:02x}{} (escaped)",
+            content[0],
+            &rendered[4..]
+        ))
+    }
+
     fn generate_testcase_expression(&self) -> String {
         // one `$` line, then a `>` line for every further line of the shell
         // expression -- also for empty ones and for a final empty one
@@ -55,6 +94,7 @@ impl OutcomeTestGenerator for Outcome {
             Err(err) => match err {
                 TestCaseError::MalformedOutput(diff) => {
                     let mut generated = self.generate_testcase_expression();
+                    let expression_length = generated.len();
 
                     // output the actual recorded output lines
                     for diff_line in diff.lines.iter() {
@@ -68,11 +108,11 @@ impl OutcomeTestGenerator for Outcome {
                             }
                             DiffLine::UnexpectedLines { lines } => {
                                 for (_, line) in lines {
-                                    let expectation = self
-                                        .escaping
-                                        .escaped_expectation((&line[..]).trim_newlines());
-                                    let suffix = self.escaping.expectation_suffix(line);
-                                    generated.push_str(&formatln!("{}{}", expectation, suffix))
+                                    let first = generated.len() == expression_length;
+                                    generated.push_str(&formatln!(
+                                        "{}",
+                                        self.generate_expectation_line(line, first)
+                                    ))
                                 }
                             }
                             _ => continue,
@@ -96,11 +136,13 @@ impl OutcomeTestGenerator for Outcome {
                     } else {
                         &self.output.stdout
                     };
-                    let mut output = stream.to_output_string(None, &self.escaping);
-                    if !output.is_empty() && !output.ends_with('\n') {
-                        output.push_str(" (no-eol)\n")
+                    let bytes: &[u8] = stream.into();
+                    for (index, line) in bytes.split_at_newline().iter().enumerate() {
+                        generated.push_str(&formatln!(
+                            "{}",
+                            self.generate_expectation_line(line, index == 0)
+                        ))
                     }
-                    generated.push_str(&output);
                     // an exit code of zero is not written (it would be removed
                     // again by the next update of the then passing test)
                     if *actual != 0 {
